@@ -29,8 +29,8 @@ MANIFEST = {
 
 PLAN = {
     # tier: (safety cfgs, liveness cfgs, tlc scenarios, generated scenarios, probes)
-    "quick": (["MC_Spy_safety_quick.cfg"], ["MC_Spy_live_quick.cfg"], 60, 140, 3, 0),
-    "thorough": (["MC_Spy_safety_thorough.cfg"], ["MC_Spy_live_thorough.cfg", "MC_Spy_live3_thorough.cfg"], 400, 1600, 12, 1),
+    "quick": (["MC_Spy_safety_quick.cfg"], ["MC_Spy_live_quick.cfg"], 60, 140, 3),
+    "thorough": (["MC_Spy_safety_thorough.cfg"], ["MC_Spy_live_thorough.cfg", "MC_Spy_live3_thorough.cfg"], 400, 1600, 12),
 }
 
 ASSUME = [
@@ -48,7 +48,7 @@ ASSUME = [
 def run(prop, tier, replay=None):
     t0 = time.time()
     work = vlib.scratch(prop)
-    safety, live, ntlc, ngen, probes, floods = PLAN[tier]
+    safety, live, ntlc, ngen, probes = PLAN[tier]
     seed = vlib.seed()
     mc_states = mc_trans = 0
     mc_info = {}
@@ -78,7 +78,7 @@ def run(prop, tier, replay=None):
         mc_info["MC_Spy_blocking_control.cfg"] = "PublishTerminates violated, as it must be"
         print("TLC negative control: a publisher that only ever blocks on a full queue violates PublishTerminates in the model (expected)")
         # 2. scenarios
-        scenarios = fs.tlc_scenarios(work, ntlc, seed) + fs.gen_scenarios(seed, ngen, floods)
+        scenarios = fs.tlc_scenarios(work, ntlc, seed) + fs.gen_scenarios(seed, ngen)
     # 3. the real spyServer
     lines, wall = fs.replay(work, scenarios, prop, probes=probes)
     by_t = {}
